@@ -1,3 +1,174 @@
-/- Property theorems for C14 (stub: not built yet). -/
+/-
+C14  Closed-form transformers compute exactly the function they document.
+
+Property theorems about the executable models in SkVerif/Model/C14*.lean, each proved equal to an
+independently written specification in SkVerif/Spec/C14*.lean, for ALL panels / series, lengths and
+parameters.  Only theorems and non-vacuity examples live here; lemmas are in SkVerif/Lemmas/C14*.lean.
+-/
+import SkVerif.Lemmas.C14Panel
 namespace SkVerif.C14
+open SkVerif SkVerif.C14
+
+/-- at least one instance, every instance has at least one column (what `check_X` demands) -/
+abbrev WellShaped (X : Panel) : Prop := Lem.WellShaped X
+/-- every instance has `nc` columns (a DataFrame / 3-D array is rectangular in its columns) -/
+abbrev Columns (X : Panel) (nc : Nat) : Prop := Lem.Columns X nc
+/-- within each column all series are equally long -/
+abbrev ColumnsEqualLength (X : Panel) (nc : Nat) : Prop := Lem.ColumnsEqualLength X nc
+
+/-! ## Padding -/
+
+/-- `_get_max_length` really is the length of the longest series of the panel. -/
+theorem maxLength_is_longest (X : Panel) (h : WellShaped X) : Spec.IsMaxLength X (maxLength X) :=
+  Lem.maxLength_isMax h
+
+/-- PaddingTransformer with a requested length `p` at least the longest series: every cell becomes
+its own values followed by the fill value up to length `p`; unequal lengths allowed. -/
+theorem pad_eq_spec_requested (kind : CellKind) (hk : kind ≠ .array) (p : Int) (fill : Rat) (Xfit X : Panel)
+    (hf : WellShaped Xfit) (hX : WellShaped X) (hp : (maxLength X : Int) ≤ p) :
+    pad kind (some p) fill Xfit X = .ok (Spec.pad p.toNat fill X) := by
+  simp only [pad, padFit, Lem.checkX_ok hf, bind, Except.bind, pure, Except.pure]
+  exact Lem.padTransform_eq_spec kind hk p fill X hX hp
+
+/-- PaddingTransformer without a requested length pads to the longest series seen in `fit`. -/
+theorem pad_eq_spec_longest (kind : CellKind) (hk : kind ≠ .array) (fill : Rat) (Xfit X : Panel)
+    (hf : WellShaped Xfit) (hX : WellShaped X) (hp : maxLength X ≤ maxLength Xfit) :
+    pad kind none fill Xfit X = .ok (Spec.pad (maxLength Xfit) fill X) := by
+  simp only [pad, padFit, Lem.checkX_ok hf, bind, Except.bind, pure, Except.pure]
+  have := Lem.padTransform_eq_spec kind hk (maxLength Xfit : Int) fill X hX (by omega)
+  simpa using this
+
+/-- a padded series is the series followed by copies of the fill value -/
+theorem pad_cell_is_series_then_fill (L : Nat) (fill : Rat) (c : Cell) (h : c.length ≤ L) :
+    Spec.padCell L fill c = c ++ List.replicate (L - c.length) fill := Lem.padCell_prefix L fill c h
+
+/-- a series longer than the fitted / requested length is rejected, never cut -/
+theorem pad_rejects_longer (kind : CellKind) (L : Int) (fill : Rat) (X : Panel) (hX : WellShaped X)
+    (h : L < (maxLength X : Int)) : padTransform kind L fill X = .error .value :=
+  Lem.padTransform_rejects kind L fill X hX h
+
+/-- KNOWN FINDING (pad:array-cells-rejected): the full-strength statement is `pad_eq_spec_*` for every
+cell kind; for ndarray cells the code raises AttributeError instead. -/
+theorem pad_array_cells_rejected_witness :
+    pad .array (some 4) 0 [[[3]]] [[[1]]] = .error .attr ∧ Spec.pad 4 0 [[[1]]] = [[[1, 0, 0, 0]]] := by
+  decide
+
+/-! ## Truncation -/
+
+theorem minLength_is_shortest (X : Panel) (h : WellShaped X) : Spec.IsMinLength X (minLength X) :=
+  Lem.minLength_isMin h
+
+/-- TruncationTransformer() keeps the first `m` values of every series, `m` the shortest series seen
+in `fit` (which must not be longer than the shortest series transformed). -/
+theorem truncate_eq_spec_shortest (kind : CellKind) (hk : kind ≠ .array) (Xfit X : Panel)
+    (hf : WellShaped Xfit) (hX : WellShaped X) (h : minLength Xfit ≤ minLength X) :
+    truncate kind none none Xfit X = .ok (Spec.truncate 0 (minLength Xfit) X) := by
+  simp only [truncate, truncFit, Lem.checkX_ok hf, bind, Except.bind, pure, Except.pure]
+  exact Lem.truncTransform_eq_spec kind hk _ none X hX 0 (minLength Xfit) (Nat.zero_le _) h (by omega)
+    (by simp [truncIdxs])
+
+/-- TruncationTransformer(lower=l) keeps the first `l` values. -/
+theorem truncate_eq_spec_lower (kind : CellKind) (hk : kind ≠ .array) (l : Nat) (Xfit X : Panel)
+    (hf : WellShaped Xfit) (hX : WellShaped X) (h : l ≤ minLength X) :
+    truncate kind (some l) none Xfit X = .ok (Spec.truncate 0 l X) := by
+  simp only [truncate, truncFit, Lem.checkX_ok hf, bind, Except.bind, pure, Except.pure]
+  exact Lem.truncTransform_eq_spec kind hk _ none X hX 0 l (Nat.zero_le _) h (by omega) (by simp [truncIdxs])
+
+/-- TruncationTransformer(lower=l, upper=u) keeps exactly positions `l … u-1` (upper exclusive). -/
+theorem truncate_eq_spec_range (kind : CellKind) (hk : kind ≠ .array) (l u : Nat) (Xfit X : Panel)
+    (hf : WellShaped Xfit) (hX : WellShaped X) (hlu : l ≤ u) (h : u ≤ minLength X) :
+    truncate kind (some l) (some u) Xfit X = .ok (Spec.truncate l u X) := by
+  simp only [truncate, truncFit, Lem.checkX_ok hf, bind, Except.bind, pure, Except.pure]
+  exact Lem.truncTransform_eq_spec kind hk _ (some (u : Int)) X hX l u hlu h (by omega) (by simp [truncIdxs])
+
+/-- a panel with a series shorter than the fitted / requested lower bound is rejected -/
+theorem truncate_rejects_shorter (kind : CellKind) (lo : Int) (upper : Option Int) (X : Panel)
+    (hX : WellShaped X) (h : (minLength X : Int) < lo) : truncTransform kind lo upper X = .error .value := by
+  simp [truncTransform, Lem.checkX_ok hX, h, bind, Except.bind]
+
+/-- KNOWN FINDING (trunc:array-cells-rejected) -/
+theorem truncate_array_cells_rejected_witness :
+    truncate .array (some 1) none [[[3, 1]]] [[[3, 1]]] = .error .attr ∧ Spec.truncate 0 1 [[[3, 1]]] = [[[3]]] := by
+  decide
+
+/-! ## Output lengths and rows for padding / truncation -/
+
+/-- padding returns exactly the requested length in every cell, whatever the input lengths -/
+theorem pad_output_lengths_exact (L : Nat) (fill : Rat) (X : Panel) :
+    ∀ inst ∈ Spec.pad L fill X, ∀ c ∈ inst, c.length = L := by
+  intro inst hi c hc
+  obtain ⟨i0, _, rfl⟩ := List.mem_map.mp hi
+  obtain ⟨c0, _, rfl⟩ := List.mem_map.mp hc
+  exact Lem.padCell_length L fill c0
+
+/-- truncation returns exactly `hi - lo` values in every cell when the range exists in every series -/
+theorem truncate_output_lengths_exact (lo hi : Nat) (X : Panel) (h : hi ≤ minLength X) :
+    ∀ inst ∈ Spec.truncate lo hi X, ∀ c ∈ inst, c.length = hi - lo := by
+  intro inst hi' c hc
+  obtain ⟨i0, hi0, rfl⟩ := List.mem_map.mp hi'
+  obtain ⟨c0, hc0, rfl⟩ := List.mem_map.mp hc
+  exact Lem.slice_length lo hi c0 (Nat.le_trans h (Lem.minLength_le hi0 hc0))
+
+/-- one output row per instance, in input order, each with the same columns: row `i` of the output is
+the transformed row `i` of the input (padding). -/
+theorem pad_rows_preserved_in_order (L : Nat) (fill : Rat) (X : Panel) (i : Nat) :
+    (Spec.pad L fill X).length = X.length ∧
+    (Spec.pad L fill X)[i]? = (X[i]?).map (fun inst => inst.map (Spec.padCell L fill)) := by
+  simp [Spec.pad]
+
+theorem truncate_rows_preserved_in_order (lo hi : Nat) (X : Panel) (i : Nat) :
+    (Spec.truncate lo hi X).length = X.length ∧
+    (Spec.truncate lo hi X)[i]? = (X[i]?).map (fun inst => inst.map (Spec.slice lo hi)) := by
+  simp [Spec.truncate]
+
+/-! ## Tabularizer / ColumnConcatenator -/
+
+/-- Tabularizer: row `i` is instance `i`'s columns one after the other, each in time order. -/
+theorem tabularize_eq_spec (X : Panel) (nc : Nat) (hX : WellShaped X) (hc : Columns X nc)
+    (heq : ColumnsEqualLength X nc) : tabularize X = .ok (Spec.tabularize X) :=
+  Lem.tabularize_eq_spec X nc hX hc heq
+
+/-- column-then-time order, by position: with all series of length `T`, value `t` of column `j` of
+instance `i` is at position `j*T + t` of row `i`. -/
+theorem tabularize_column_then_time (X : Panel) (T i j t : Nat) (ht : t < T)
+    (hT : ∀ inst ∈ X, ∀ c ∈ inst, c.length = T) :
+    ((Spec.tabularize X)[i]?).bind (fun row => row[j * T + t]?) =
+      ((X[i]?).bind (fun inst => inst[j]?)).bind (fun c => c[t]?) := by
+  simp only [Spec.tabularize, List.getElem?_map]
+  cases hi : X[i]? with
+  | none => simp
+  | some inst =>
+    have hmem : inst ∈ X := List.mem_of_getElem? hi
+    simp only [Option.map_some, Option.bind_some]
+    exact Lem.flatten_uniform_getElem? inst T (hT inst hmem) j t ht
+
+/-- a column whose series have different lengths has no tabular form and is rejected -/
+theorem tabularize_rejects_ragged (X : Panel) (nc : Nat) (hX : WellShaped X) (hc : Columns X nc)
+    (j : Nat) (hj : j < nc) (a b : Inst) (ha : a ∈ X) (hb : b ∈ X)
+    (hne : (a.getD j []).length ≠ (b.getD j []).length) : tabularize X = .error .value :=
+  Lem.tabularize_rejects_ragged X nc hX hc j hj a b ha hb hne
+
+/-- ColumnConcatenator: one column whose cell is the instance's columns concatenated in time. -/
+theorem columnConcat_eq_spec (X : Panel) (nc : Nat) (hX : WellShaped X) (hc : Columns X nc)
+    (heq : ColumnsEqualLength X nc) : columnConcat X = .ok (Spec.columnConcat X) := by
+  simp only [columnConcat, Lem.tabularize_eq_spec X nc hX hc heq, bind, Except.bind, pure, Except.pure]
+  simp [nestRows, Spec.tabularize, Spec.columnConcat]
+
+theorem tabularize_rows_preserved_in_order (X : Panel) (i : Nat) :
+    (Spec.tabularize X).length = X.length ∧ (Spec.columnConcat X).length = X.length ∧
+    (Spec.tabularize X)[i]? = (X[i]?).map List.flatten ∧
+    (Spec.columnConcat X)[i]? = (X[i]?).map (fun inst => [inst.flatten]) := by
+  simp [Spec.tabularize, Spec.columnConcat]
+
+-- non-vacuity
+example : WellShaped [[[1, 2, 3], [4, 5]], [[6], [7, 8, 9, 10]]] :=
+  ⟨by simp, by intro i hi; simp at hi; rcases hi with rfl | rfl <;> simp⟩
+example : pad .series none 0 [[[1, 2, 3], [4, 5]], [[6], [7, 8, 9, 10]]] [[[1, 2, 3], [4, 5]], [[6], [7, 8, 9, 10]]]
+    = .ok [[[1, 2, 3, 0], [4, 5, 0, 0]], [[6, 0, 0, 0], [7, 8, 9, 10]]] := by decide
+example : truncate .series (some 1) (some 3) [[[1, 2, 3], [4, 5, 7]]] [[[1, 2, 3], [4, 5, 7]]]
+    = .ok [[[2, 3], [5, 7]]] := by decide
+example : Columns [[[1, 2, 3], [4, 5]], [[6, 0, 1], [7, 8]]] 2 := by
+  intro i hi; simp at hi; rcases hi with rfl | rfl <;> rfl
+example : tabularize [[[1, 2, 3], [4, 5]], [[6, 0, 1], [7, 8]]] = .ok [[1, 2, 3, 4, 5], [6, 0, 1, 7, 8]] := by decide
+
 end SkVerif.C14
